@@ -496,7 +496,7 @@ where
 
     async fn unlock(&mut self, key: &AccessKey) -> Result<VaultMeta, E> {
         if let Some(salt) = self.vault.salt() {
-            match key {
+            let result = match key {
                 AccessKey::Password(passphrase) => {
                     let salt = KeyDerivation::parse_salt(salt)?;
                     let deriver = self.vault.deriver();
@@ -514,7 +514,14 @@ where
                         Some(PrivateKey::Asymmetric(id.clone()));
                     self.vault_meta().await
                 }
+            };
+
+            // Do not keep a private key that failed verification
+            if result.is_err() {
+                self.private_key = None;
             }
+
+            result
         } else {
             Err(Error::VaultNotInit.into())
         }
